@@ -52,7 +52,12 @@ def gen_case(rng, k):
         passed = keys[:2]
     kv = ["%s: %s" % (key, rng.choice(list(VALS.values()))) for key in passed]
     pos = [rng.choice(list(VALS.values())) for _ in range(npos)]
-    return method, pos, kv
+    if rng.random() < 0.3:
+        # a receiver that is a union of two user classes which both define the method: the same evaluated arguments are bound twice
+        ind = "\n".join("  " + l for l in method.rstrip("\n").split("\n"))
+        method = "class Ka%d\n%s\nend\nclass Kb%d\n%s\nend\nu%d = true ? Ka%d.new : Kb%d.new\n" % (k, ind, k, ind, k, k, k)
+        return method, pos, kv, "u%d." % k
+    return method, pos, kv, ""
 
 
 def builtin_case(rng):
@@ -66,7 +71,7 @@ def run_e2e(ctx, n):
     wd = common.make_workdir(ctx, "e2e")
     cases = []
     for k in range(n):
-        method, pos, kv = gen_case(rng, k)
+        method, pos, kv, recv = gen_case(rng, k)
         perms = list(itertools.permutations(kv))
         if len(perms) > 24:
             perms = [perms[0]] + rng.sample(perms[1:], 11)
@@ -76,7 +81,7 @@ def run_e2e(ctx, n):
         for pi, perm in enumerate(perms):
             args = ", ".join(pos + list(perm))
             style = k % 3
-            call = ("r = meth%d(%s)" if style == 0 else "r = meth%d %s" if style == 1 else "r = meth%d(%s)\ndbtp r") % (k, args)
+            call = ("r = %smeth%d(%s)" if style == 0 else "r = %smeth%d %s" if style == 1 else "r = %smeth%d(%s)\ndbtp r") % (recv, k, args)
             progs.append(method + call + "\n")
         cases.append((k, progs, kv))
 
